@@ -103,30 +103,34 @@ class TensorNames(metaclass=Singleton):
         if not isinstance(expr, Expr):
             raise Inputerror("Expr needs to be provided as Expr instance.")
 
+        # find all necessary substitutions (default name -> current name)
+        subs = []
         for field in fields(self):
             new = getattr(self, field.name)
             if field.default == new:  # nothing to do
                 continue
-            # find the necessary substitutions
             if field.name == "gs_amplitude":  # special case for t_amplitudes
-                subs = []
                 for sym in expr.sympy.atoms(Symbol):
                     split_name = _split_default_t_amplitude(sym.name)
                     if split_name is None:
                         continue
                     subs.append((sym.name, new + split_name[1]))
             elif field.name == "gs_density":  # and for gs densities
-                subs = []
                 for sym in expr.sympy.atoms(Symbol):
                     split_name = _split_default_gs_density(sym.name)
                     if split_name is None:
                         continue
                     subs.append((sym.name, new + split_name[1]))
             else:
-                subs = [(field.default, new)]
-
-            for old, new in subs:
-                expr.rename_tensor(old, new)
+                subs.append((field.default, new))
+        # the new name of a tensor might be the default name of another tensor
+        # (e.g. swapped names) -> rename simultaneously by going through
+        # unique temporary names
+        tmp_names = [f"_tmp_name_{i}_" for i in range(len(subs))]
+        for (old, _), tmp in zip(subs, tmp_names):
+            expr.rename_tensor(old, tmp)
+        for (_, new), tmp in zip(subs, tmp_names):
+            expr.rename_tensor(tmp, new)
         return expr
 
 
